@@ -3,6 +3,7 @@
   Property theorems only.
 -/
 import NPModel.Refine.Validate
+import NPModel.Refine.Views
 import NPModel.Refine.Samples
 namespace NP.C03
 open NP
@@ -44,6 +45,31 @@ theorem missing_iff_invalid (s : PStruct α) (i : Nat) :
     (s.rowAt i).isNone = !(s.valid.getD i false) := by
   unfold PStruct.rowAt
   cases s.valid.getD i false <;> simp
+
+/-- **Summary quantities agree with the element view** (chunk level, any offsets/buffers):
+    `list_lengths` = `diff(list_offsets)` = the lengths of the rows the element view shows —
+    missing rows count zero, empty rows count zero and are not missing.  Hypotheses: what validated
+    storage satisfies, and no hidden child lists (finding K1 is exactly their failure). -/
+theorem lengths_agree_with_element_view (s : PStruct α) (hw : s.WF = true) (hne : s.nullEmpty = true)
+    (hh : s.noHidden) (k0 : PField α) (ks : List (PField α)) (hk : s.kids = k0 :: ks) :
+    diffs (rebased k0.list.offs) = s.rows.map Row.len :=
+  chunk_lengths_are_row_lens s hw hne hh k0 ks hk
+
+/-- **The flat view agrees with the element view**: `field(f).flatten()` is the concatenation,
+    row by row, of field `f` of the tables the element view shows; a missing row contributes no
+    flat record. -/
+theorem flat_view_agrees_with_element_view (s : PStruct α) (hw : s.WF = true) (hh : s.noHidden)
+    (f : String) (k : PField α) (hk : s.kid? f = some k) :
+    k.list.flatten = Spec.flatField s.rows f :=
+  chunk_flat_is_concat_of_rows s hw hh f k hk
+
+/-- **The list-struct view exists for validated storage** (so `list_lengths`, `flat_length`,
+    `get_list_index` do not raise), with the re-based offsets of the first field — fields may be
+    slices of different buffers. -/
+theorem list_struct_view_exists (s : PStruct α) (hw : s.WF = true) (hne : s.nullEmpty = true) (ha : s.aligned)
+    (k0 : PField α) (ks : List (PField α)) (hk : s.kids = k0 :: ks) :
+    ∃ l, transposeSL s false = .ok l ∧ l.offs = rebased k0.list.offs :=
+  transposeSL_ok s hw hne ha k0 ks hk
 
 /-- non-vacuity: a sliced list array with a null list -/
 example : Samples.la.WF = true ∧ Samples.la.nullEmpty = true ∧
